@@ -276,6 +276,20 @@ def run(tier, seed):
         if rng.random() < (0.5 if q else 1.0):
             histories.append([(sa, members[sa["name"]], True, True), (sb, members[sa["name"]], True, True), (sb, members[sb["name"]], True, True),
                               (sa, members[sb["name"]], True, True)])
+    # two classes with DIFFERENT enzymes shown the very same plasmid one directly after the other, the plasmid being a member of
+    # the second class spoilt by one more site of the second class's enzyme (entry / entry-vector pairs of a kit read the same
+    # stretch of such a plasmid): what the first class's look leaves behind must not make the second class overlook the site
+    from . import typing_common as _tc
+    nx = 0
+    for sa, sb in pairs:
+        ca, cb = classes.build(sa), classes.build(sb)
+        if ca.cutter is cb.cutter:
+            continue
+        recx = _tc.with_extra_site(members[sb["name"]], str(cb.cutter.site), rng)
+        histories.append([(sa, recx), (sb, recx)])
+        histories.append([(sa, recx, True, True), (sb, recx, True, True)])
+        nx += 1
+    run.extra["cross_enzyme_spoilt_pairs"] = nx
     # user classes written next to a kit class whose signature spells the same letters in lower case
     # (lower-case ambiguity letters are literal in a pattern, so the two classes are different)
     for sp, c in kcs:
@@ -350,6 +364,12 @@ def run(tier, seed):
             else G2.vector(ov[0], ov[1], gen.rnd(3, rng), gen.rnd(5, rng), rng)
         if rec2:
             histories.append([(sp, members[sp["name"]]), (child, rec2), (child, members[sp["name"]])])
+    # user subclasses that write a structure() of their own with a FOURTH capture group (same cutter): asked twice, then after
+    # the parent; the first look at such a class must not differ from the later ones
+    for sp, c in (rng.sample(plain, min(len(plain), 6)) if q else plain):
+        child = {"subclass_of": sp, "enz": classes.enz_spec(c.cutter), "name": "Barcoded" + sp["name"], "extra_group": rng.choice(["(NN)", "(N)", "(N*?)"])}
+        rec4 = members[sp["name"]]
+        histories.append([(child, rec4), (child, rec4), (sp, rec4), (child, gen.rotate(rec4, 3))])
     run.extra["kit_class_pairs"] = len(pairs)
     base = {}
     traces = []
